@@ -364,9 +364,22 @@ def run_call(case, ctx):
                 c = netgen.build(host)
             ctx.count('host:' + case['mode'])
             ops = case['operands']
-            if case.get('same_list_object'):
+            if case.get('live') and len(ops) == 1 and f in ('add_plus_one', 'add_sqrt', 'add_sub2', 'add_sub3', 'add_equal'):
+                # the caller passes what an accessor returned: the host's own live output list
+                with monitor.suspended():
+                    c.set_outputs(list(ops[0]))
+                ops = [c.outputs]
+                case = dict(case, same_list_object=True)   # (no iterable flavouring: the list object itself matters)
+                A.CUR['case'] = case
+                ctx.count('live_operand_list')
+            if case.get('same_list_object') and len(ops) == 2:
                 ops = [ops[0], ops[0]]   # the very same list object for both operands
                 ctx.count('same_list_object')
+            _fr = random.Random(repr(case.get('rseed')) + f)
+
+            def _F(x):
+                # any iterable the signature admits (Iterable[Label]) unless the case is about list object identity
+                return x if case.get('same_list_object') else A.flavour(_fr, x, ctx)
             nontrivial = case['mode'] in ('internal', 'mixed', 'repeated') or any(len(o) >= 2 for o in ops)
             if len(ops) >= 2 and len(ops[0]) != len(ops[1]):
                 ctx.count('unequal_widths')
@@ -409,22 +422,22 @@ def run_call(case, ctx):
                 except Exception as e:
                     ctx.count('mismatched_request_raised:' + type(e).__name__)
             if f == 'add_sub_two_numbers':
-                ar.add_sub_two_numbers(c, ops[0], ops[1], big_endian=be)
+                ar.add_sub_two_numbers(c, _F(ops[0]), _F(ops[1]), big_endian=be)
             elif f == 'add_sub2':
-                ar.add_sub2(c, ops[0], big_endian=be)
+                ar.add_sub2(c, _F(ops[0]), big_endian=be)
             elif f == 'add_sub3':
-                ar.add_sub3(c, ops[0], big_endian=be)
+                ar.add_sub3(c, _F(ops[0]), big_endian=be)
             elif f == 'add_subtract_with_compare':
-                ar.add_subtract_with_compare(c, ops[0], ops[1], big_endian=be)
+                ar.add_subtract_with_compare(c, _F(ops[0]), _F(ops[1]), big_endian=be)
             elif f == 'add_div_mod':
                 ctx.count('divmod:zero_divisor_possible')
-                ar.add_div_mod(c, ops[0], ops[1], big_endian=be)
+                ar.add_div_mod(c, _F(ops[0]), _F(ops[1]), big_endian=be)
             elif f == 'add_sqrt':
-                ar.add_sqrt(c, ops[0], big_endian=be)
+                ar.add_sqrt(c, _F(ops[0]), big_endian=be)
             elif f == 'add_equal':
                 if case['num'] >= (1 << len(ops[0])):
                     ctx.count('equal:does_not_fit')
-                ar.add_equal(c, ops[0], case['num'])
+                ar.add_equal(c, _F(ops[0]), case['num'])
             elif f == 'add_plus_one':
                 gn.add_plus_one(c, ops[0], result_labels=case.get('result_labels'), big_endian=be, **opt)
             elif f == 'add_if_then_else':
@@ -490,6 +503,8 @@ def gen_add_case(rng, maxw):
         case['add_outputs'] = rng.random() < 0.5
         if rng.random() < 0.5:
             case['result_labels'] = ['px%d_%d' % (i, rng.randrange(1000)) for i in range(w)]
+    if len(case['operands']) == 1 and rng.random() < 0.2:
+        case['live'] = True
     if rng.random() < 0.5:
         case['host'] = netgen.describe(A.add_operand_users(host, case['operands'], rng))
     if len(case['operands']) == 2 and len(case['operands'][0]) == len(case['operands'][1]) and rng.random() < 0.15:
